@@ -303,7 +303,9 @@ func runWait(c WCase, env *WEnv, info *WInfo, livep *[]*wtr) *vstat.Violation {
 					return vstat.V(env.Name+":wait-harness", "internal: the lagging server does not serve the record any more: %s", errName(err))
 				}
 				info.class("record_expired_by_the_client_clock_served_by_a_lagging_server")
-				wrote(k, r.Version, false) // the server will not drop it during the script
+				// the server keeps it as long as ITS clock stands still: the first advance of the server clock (minutes) drops it
+				wrote(k, r.Version, false)
+				keys[k].hasExp, keys[k].expAt = true, elapsed+15*time.Millisecond
 				break
 			}
 			r, err := env.St.Put(ctx, kvs.Record{Key: name(k), Value: value(op, k, "p"), ExpiresAt: expiry(exp)})
